@@ -83,6 +83,7 @@ func genC12(rng *rand.Rand, tier string) *sim.Plan {
 		{K: "connect", C: 2, Clean: false, ExpiryS: sim.U32(900000)},
 		{K: "release_acks", C: 3, Ack: "prompt"},
 	}})
+	maybeRedis(rng, p, 0.2)
 	return p
 }
 
